@@ -118,6 +118,10 @@ func (m *swLoader) load(path string) (*types.Package, error) {
 
 type swSite struct {
 	file, fn, kind, target, lhs, hash string
+	// what is written there (gen_sharedwrites_values.go): the type of the stored value and whether
+	// a value of that type can carry state of one run
+	vtype  string
+	perRun bool
 }
 
 type swScan struct {
@@ -130,6 +134,7 @@ type swScan struct {
 	file    string
 	fresh   map[types.Object]bool // locals built by a composite literal / new in this function
 	tainted map[types.Object]bool // locals aliasing shared reference-typed values
+	curCall *ast.CallExpr // the method call being recorded by add (call:… sites)
 	sites   *[]swSite
 	pkgvars *[]swSite
 	allocs  *[]swSite
@@ -326,6 +331,7 @@ func (s *swScan) add(kind string, loc ast.Expr, stmt ast.Node, forcedTarget stri
 		return
 	}
 	site.target = t
+	site.vtype, site.perRun = s.storedValue(loc, stmt)
 	*s.sites = append(*s.sites, site)
 }
 
@@ -427,7 +433,9 @@ func (s *swScan) call(c *ast.CallExpr, stmt ast.Node) {
 			return
 		}
 		if _, ok := s.reach(f.X); ok || s.isPkgVarExpr(f.X) {
+			s.curCall = c
 			s.add("call:"+fn.Name(), f.X, stmt, "")
+			s.curCall = nil
 		}
 	}
 }
@@ -926,6 +934,7 @@ func genSharedWrites(repo string) (string, error) {
 	}
 	b.WriteString("]\n\n")
 	swEmitSites(&b, "writeSites", "every write (assignment, ++, copy/delete/clear/append, &x, foreign mutating method call) in internal/runtime and programs.go/templates.go whose target is inside or reachable from a shared value, constructor code on fresh locals excluded", sites)
+	swEmitStoredValues(&b, sites)
 	swEmitSites(&b, "pkgVarWrites", "every write to a package-level variable in the same code (init functions and declarations excluded)", pkgvars)
 	b.WriteString("/-- every package-level variable of internal/runtime, programs.go and templates.go whose value holds a reference to mutable memory (slice, map, pointer, channel, reflect.Value, or a struct/array of those): (file, name, type) -/\ndef pkgRefVars : List (String × String × String) := [")
 	for i, v := range refVars {
